@@ -35,6 +35,7 @@ def add_ext_obligations(ck, lmax=3, data_clauses=True):
             it.oblige(s, label, goal, line, kind="post", meta=meta)
 
     def setup(L):
+        """L: number of blocks, a Python int (unrolled variants) or a z3 integer (loop-invariant variant)"""
         st = State()
         # writer record lives in the C library's header: reuse the field list through the extension TU (it includes digital_rf.h)
         wptr, wf = c_obj.make_writer(cfront.CInterp(tu), st)
@@ -58,10 +59,15 @@ def add_ext_obligations(ck, lmax=3, data_clauses=True):
         st.assume(z3.And(item >= 1, item <= 32, nsub >= 1, nsub < (1 << 16), V >= 0, V < (1 << 40), wf["global_index"] >= 0, wf["global_index"] < (1 << 62), Z(wf["num_subchannels"]) == nsub))
         # precondition on the block array, discharged at the only call site by py.blocks.accept_only_wellformed
         st.assume(z3.And(z3.Select(b, 0) == 0, z3.Select(b, L - 1) < V))
-        for i in range(L - 1):
-            st.assume(z3.Select(b, i) < z3.Select(b, i + 1))
-        for i in range(L):
-            st.assume(z3.And(z3.Select(b, i) >= 0, z3.Select(b, i) < (1 << 40), z3.Select(g, i) >= 0, z3.Select(g, i) < (1 << 62)))
+        if isinstance(L, int):
+            for i in range(L - 1):
+                st.assume(z3.Select(b, i) < z3.Select(b, i + 1))
+            for i in range(L):
+                st.assume(z3.And(z3.Select(b, i) >= 0, z3.Select(b, i) < (1 << 40), z3.Select(g, i) >= 0, z3.Select(g, i) < (1 << 62)))
+        else:
+            jq = z3.Int("j!xb")
+            st.assume(z3.And(L >= 1, L < (1 << 30)))
+            st.assume(z3.ForAll([jq], z3.Implies(z3.And(jq >= 0, jq < L), block_pre(g, b, L, jq))))
         return st, wptr, wf, g, b, arrs, objs, caps, data, og, ob
 
     def externals_for(st0, wptr, arrs, objs, caps, parse_order, next_sample=None):
@@ -185,6 +191,8 @@ def add_ext_obligations(ck, lmax=3, data_clauses=True):
         for o in it.obls:
             o.bounded = "<= %d blocks per call (all values symbolic)" % lmax
         ck.add([o for o in it.obls if o.kind in ("post", "pre")])
+    # ------------------------------------------------------------------ rf_block_write, any number of blocks (loop invariant)
+    add_ext_split_unbounded(ck, tu, setup, externals_for, item, nsub, V, data_clauses, post)
     # ------------------------------------------------------------------ rf_write
     fname = "_py_rf_write_hdf5_rf_write"
     st, wptr, wf, g, b, arrs, objs, caps, data, og, ob = setup(1)
@@ -214,3 +222,101 @@ def add_ext_obligations(ck, lmax=3, data_clauses=True):
     ck.add([o for o in it.obls if o.kind in ("post", "pre")])
     ck.assumptions += ["numpy arrays handed to the extension are C-contiguous with shape (N, num_subchannels) (established by DigitalRFWriter._cast_input_array: checks/cast_common.py, enumerated over writer types and input layouts); "
                        "PyArg_ParseTuple / PyCapsule_GetPointer / Py_BuildValue transport values unchanged"]
+
+
+def block_pre(g, b, L, j):
+    """precondition on the two index arrays at position j (increasing block starts, value ranges); discharged at the only call site"""
+    return z3.And(z3.Select(b, j) >= 0, z3.Select(b, j) < (1 << 40), z3.Select(g, j) >= 0, z3.Select(g, j) < (1 << 62),
+                  z3.Implies(j + 1 < L, z3.Select(b, j) < z3.Select(b, j + 1)))
+
+
+def add_ext_split_unbounded(ck, tu, setup, externals_for, item, nsub, V, data_clauses, post):
+    """The continuous-mode split loop of rf_block_write for EVERY number of blocks: the loop is cut at its head with a sidecar
+    invariant. An arbitrary iteration (i havocked, 0 <= i < L) must make exactly one digital_rf_write_hdf5 call with
+    (g[i], data + b[i]*rowbytes, (i+1 == L ? V : b[i+1]) - b[i]) and advance i by exactly one; the loop starts at i = 0 with no call
+    made and can only be left with i = L (all blocks handed over, in order) or by a failing call (NULL returned)."""
+    from contracts.c_blocks import local, set_local
+    fname = "_py_rf_write_hdf5_rf_block_write"
+    fn = tu.funcs[fname]
+    L = z3.Int("index_length")
+    st, wptr, wf, g, b, arrs, objs, caps, data, og, ob = setup(L)
+    E = externals_for(st, wptr, arrs, objs, caps, ["capsule", "num", "glob", "blk"])
+    it = cfront.CInterp(tu, externals=E, config={"prune_full": False})
+    iters = []
+
+    def wcalls(s, since=0):
+        return [e for e in s.trace[since:] if e.name.startswith("digital_rf_write")]
+
+    def inv(itp, s):
+        out = inv_clauses(itp, s)
+        if s.ghost.get("inv_mode") == "prove":
+            stage = "preserve" if "x_i0" in s.ghost else "init"
+            for lab, c in out:
+                # clauses the symbolic run already reduced to true are recorded (ledger), the others become solver obligations
+                if simp(c) is True:
+                    ck.struct("x.block_write.unbounded.loop.%s.%s" % (stage, lab), True, "", {})
+        return out
+
+    def inv_clauses(itp, s):
+        i = Z(local(itp, s, fn, "i"))
+        out = [("range", z3.And(i >= 0, i <= L))]
+        if s.ghost.get("inv_mode") != "prove":
+            return out
+        if "x_i0" not in s.ghost:
+            # establishment: the loop starts at the first block and nothing has been handed over yet
+            out.append(("starts_at_first_block", z3.And(i == 0, z3.BoolVal(not wcalls(s)))))
+            return out
+        i0, since = s.ghost["x_i0"], s.ghost["x_trace0"]
+        calls = wcalls(s, since)
+        iters.append(len(calls))
+        out.append(("advance_by_one", i == i0 + 1))
+        out.append(("one_call_per_block", z3.BoolVal(len(calls) == 1 and calls[0].name == "digital_rf_write_hdf5" and not calls[0].info.get("fail"))))
+        if len(calls) >= 1 and calls[0].name == "digital_rf_write_hdf5":
+            a = calls[0].args
+            nxt = z3.If(i0 + 1 == L, V, z3.Select(b, i0 + 1))
+            out.append(("split_call_index_and_length", z3.And(Z(a[1]) == z3.Select(g, i0), Z(a[3]) == nxt - z3.Select(b, i0))))
+            if data_clauses:
+                okd = isinstance(a[2], Ptr) and a[2].obj == data
+                out.append(("split_call_data", z3.And(z3.BoolVal(okd), Z(a[2].idx) == z3.Select(b, i0) * (item * nsub)) if okd else z3.BoolVal(False)))
+        return out
+
+    def havoc(itp, s):
+        i0 = fresh_int("i")
+        set_local(itp, s, fn, "i", i0)
+        for nm in ("block_index", "next_block_index", "block_length", "next_sample", "result"):
+            set_local(itp, s, fn, nm, fresh_int(nm))
+        w = s.mem[wptr.obj]
+        s.mem[wptr.obj] = w.set("global_index", fresh_int("global_index_havoc"))
+        s.ghost["x_i0"], s.ghost["x_trace0"] = i0, len(s.trace)
+        # ghost instantiation of the quantified precondition at the two positions the body reads
+        s.assume(z3.Implies(z3.And(i0 >= 0, i0 < L), block_pre(g, b, L, i0)))
+        s.assume(z3.Implies(z3.And(i0 + 1 >= 0, i0 + 1 < L), block_pre(g, b, L, i0 + 1)))
+
+    selfp, argsp = Ptr(st.new_obj(Opaque("self"), "self"), 0), Ptr(st.new_obj(Opaque("args"), "args"), 0)
+    n0 = len(it.obls)
+    paths = it.run_function(fname, st, [selfp, argsp], {"overflow": "wrap", "unroll": 2, "loops": {1: {"invariant": inv, "havoc": havoc}}})
+    for o in it.obls[n0:]:
+        if o.kind == "inv":
+            o.label = o.label.replace(fname + ".loop1", "x.block_write.unbounded.loop")
+    seen_exit = seen_fail = False
+    for s, rv in paths:
+        it.func = fname
+        if "x_i0" not in s.ghost:
+            continue        # gapped path / parse failure: covered by the clauses above
+        calls = wcalls(s, s.ghost["x_trace0"])
+        if calls:
+            # left the loop from inside the body: only after a failing call, reported as an exception
+            seen_fail = True
+            ck.struct("x.block_write.unbounded.early_exit_only_on_failure", len(calls) == 1 and bool(calls[0].info.get("fail")),
+                      "the split loop may only be left early by a failing digital_rf_write_hdf5 call", {})
+            post(it, s, "x.block_write.unbounded.error_reported", B(it.isnull(rv)) if isinstance(rv, Ptr) else False, fn["_line"])
+            continue
+        seen_exit = True
+        bv = [e for e in s.trace if e.name == "Py_BuildValue"]
+        ck.struct("x.block_write.unbounded.returns_object", bool(bv) and isinstance(rv, Ptr) and rv.obj is not None,
+                  "after the last block rf_block_write must return the next sample", {})
+        if bv:
+            post(it, s, "x.block_write.unbounded.returns_cursor", Z(bv[-1].args[1]) == Z(s.mem[wptr.obj].fields["global_index"]), fn["_line"])
+        post(it, s, "x.block_write.unbounded.split_path_condition", z3.And(Z(wf["is_continuous"]) != 0, L > 1), fn["_line"])
+    ck.struct("x.block_write.unbounded.paths", seen_exit and seen_fail and bool(iters), "the loop-invariant run must reach the body, the failure exit and the normal exit", {})
+    ck.add([o for o in it.obls if o.kind in ("post", "pre", "inv")])
